@@ -8,6 +8,7 @@ import (
 	"os"
 	"path/filepath"
 
+	"verifharness/chain"
 	"verifharness/repl"
 	"verifharness/trace"
 )
@@ -36,6 +37,7 @@ func main() {
 		fs := flag.NewFlagSet("replay", flag.ExitOnError)
 		hf := fs.String("history", "", "history file")
 		rep := fs.String("rep", "r4", "replica name")
+		tracer := fs.String("tracer", "", "value of the node-local option evm.tracer")
 		fs.Parse(os.Args[2:])
 		bz, err := os.ReadFile(*hf)
 		if err != nil {
@@ -45,7 +47,7 @@ func main() {
 		if err := json.Unmarshal(bz, &h); err != nil {
 			panic(err)
 		}
-		repl.Replay(&h, *rep, nil, 0, func(m trace.M) {
+		repl.Replay(&h, *rep, func(o *chain.Opts) { o.EvmTracer = *tracer }, 0, func(m trace.M) {
 			b, _ := json.Marshal(m)
 			fmt.Println(string(b))
 		})
